@@ -120,6 +120,16 @@ def run(ctx, div=True):
         cnt = pct = None
         if isinstance(cell, ast.Call) and call_name(cell) == '_format_statistic' and len(cell.args) == 2:
             cnt, pct = cell.args
+        elif isinstance(cell, ast.Call) and isinstance(cell.func, ast.Attribute) and cell.func.attr == 'format' \
+                and isinstance(cell.func.value, ast.Constant) and len(cell.args) == 2 and not cell.keywords:
+            cnt, pct = cell.args                       # '{0} ({1}%)'.format(count, percent)
+            if '{1}' in cell.func.value.value and cell.func.value.value.index('{1}') < cell.func.value.value.find('{0}') >= 0:
+                cnt, pct = pct, cnt
+        elif isinstance(cell, ast.BinOp) and isinstance(cell.op, ast.Mod) and isinstance(cell.left, ast.Constant) \
+                and isinstance(cell.right, ast.Tuple) and len(cell.right.elts) == 2:
+            cnt, pct = cell.right.elts                 # '%s (%s%%)' % (count, percent)
+        elif isinstance(cell, ast.JoinedStr) and len([v for v in cell.values if isinstance(v, ast.FormattedValue)]) == 2:
+            cnt, pct = [v.value for v in cell.values if isinstance(v, ast.FormattedValue)]
         else:
             # the formatting helper inlined: '<count> (<percent>%)' built from two str(..) pieces
             strs = [c_ for c_ in ast.walk(cell) if isinstance(c_, ast.Call) and isinstance(c_.func, ast.Name) and c_.func.id == 'str'
